@@ -116,6 +116,7 @@ func c14(c *Ctx) {
 		[]string{"pkg/database.(*vlogTruncator).TruncateUptoTx", "pkg/database.(*lazyDB).TruncateUptoTx"}, 1)
 	c.ruleWhoMayCall(r, "ImmuStore.TruncateUptoTx", callTo(storeT+"TruncateUptoTx"), []string{"pkg/database.(*db).TruncateUptoTx"}, 1)
 
+	c14ExportBuffer(c, "C14.1/export-buffer-under-lock")
 	// ---- C14.5 export of truncated transactions terminates ----------------------------------------------
 	r = "C14.5/truncated-export"
 	if f := c.mustFn(r, storeT+"readValueAt"); f != nil {
@@ -227,4 +228,45 @@ func c14TruncateRules(c *Ctx, r string) {
 		}
 	}
 
+}
+
+
+// c14ExportBuffer: ExportTx reads every value into the shared scratch buffer ImmuStore._valBs under _valBsMux; the
+// bytes are still in that buffer when they are copied into the export, so the copy happens under the same lock
+// (another export may refill the buffer as soon as the lock is released).
+func c14ExportBuffer(c *Ctx, r string) {
+	f := c.mustFn(r, storeT+"ExportTx")
+	if f == nil {
+		return
+	}
+	uses := func(in ssa.Instruction) bool {
+		call, ok := in.(*ssa.Call)
+		if !ok {
+			return false
+		}
+		cn := calleeName(&call.Call)
+		if cn != "bytes.(*Buffer).Write" && cn != storeT+"readValueAt" {
+			return false
+		}
+		for _, a := range call.Call.Args {
+			if dependsOn(a, func(v ssa.Value) bool {
+				fl, _ := fieldOf(v) // &s._valBs (an array field: slicing it needs no load)
+				if fl == "ImmuStore._valBs" {
+					return true
+				}
+				if ld, ok := v.(*ssa.UnOp); ok {
+					fl, _ = fieldOf(ld.X)
+				}
+				return fl == "ImmuStore._valBs"
+			}) {
+				return true
+			}
+		}
+		return false
+	}
+	if len(sites(f, uses)) < 2 {
+		c.undecided(r, fnName(f)+":shared-buffer-uses", "uses of the shared value buffer not found (readValueAt into it, buf.Write from it)")
+		return
+	}
+	c.ruleHeldAt(r, f, "use of shared value buffer", uses, "ImmuStore._valBsMux", true, nil)
 }
